@@ -116,9 +116,13 @@ func c01Model(s c01Spec) c01Expect {
 		e.ALPN = sel
 	}
 	// server certificates and the client's verification
-	if s.SCert == 0 {
+	switch s.SCert {
+	case 0:
 		e.SrvCerts = [][]byte{p.SrvSig.Certificate[0], p.SrvEnc.Certificate[0]}
-	} else {
+	case 2:
+		// issued by an intermediate CA, which the server sends along behind the two end-entity certificates
+		e.SrvCerts = [][]byte{p.ChainSig.Certificate[0], p.ChainEnc.Certificate[0], p.I.cert.Raw}
+	default:
 		e.SrvCerts = [][]byte{p.SrvSigB.Certificate[0], p.SrvEncB.Certificate[0]}
 	}
 	if s.CVerify {
@@ -214,9 +218,14 @@ func c01Configs(s c01Spec) (ccfg, scfg *Config) {
 	if !s.SSuitesNil {
 		scfg.CipherSuites = append([]uint16{}, s.SSuites...)
 	}
-	if s.SCert == 0 {
+	switch s.SCert {
+	case 0:
 		scfg.Certificates = []Certificate{p.SrvSig, p.SrvEnc}
-	} else {
+	case 2:
+		sg := p.ChainSig
+		sg.Certificate = [][]byte{p.ChainSig.Certificate[0], p.I.cert.Raw}
+		scfg.Certificates = []Certificate{sg, p.ChainEnc}
+	default:
 		scfg.Certificates = []Certificate{p.SrvSigB, p.SrvEncB}
 	}
 	switch s.SCAs {
@@ -441,7 +450,7 @@ func c01SpecGen() *rapid.Generator[c01Spec] {
 		s.CALPN = rapid.SampledFrom([]int{0, 0, 0, 1, 2, 3, 3, 4, 5, 6}).Draw(t, "ca")
 		s.CCache = rapid.Bool().Draw(t, "cc")
 		s.CClone = rapid.Bool().Draw(t, "ccl")
-		s.SCert = rapid.SampledFrom([]int{0, 0, 0, 0, 0, 0, 0, 1}).Draw(t, "sc")
+		s.SCert = rapid.SampledFrom([]int{0, 0, 0, 0, 0, 0, 2, 2, 1}).Draw(t, "sc")
 		s.SPolicy = rapid.IntRange(0, 5).Draw(t, "sp")
 		s.SCAs = rapid.SampledFrom([]int{0, 1, 1, 2}).Draw(t, "sca")
 		s.SALPN = rapid.SampledFrom([]int{0, 0, 0, 1, 2, 3, 3, 4, 5, 6}).Draw(t, "sa")
@@ -456,6 +465,10 @@ func c01SpecGen() *rapid.Generator[c01Spec] {
 			max = 5000
 		}
 		s.Sizes = []int{rapid.IntRange(1, max).Draw(t, "up"), rapid.IntRange(1, max).Draw(t, "down")}
+		if vfStack == "tlcp" && rapid.IntRange(0, 7).Draw(t, "bulk") == 0 {
+			// a bulk transfer: the record size ramp reaches full-size records
+			s.Sizes[rapid.IntRange(0, 1).Draw(t, "bulkdir")] = rapid.SampledFrom([]int{131072, 200000, 300000}).Draw(t, "bulksize")
+		}
 		return s
 	})
 }
@@ -465,7 +478,7 @@ func c01NonTrivial(s c01Spec) bool {
 }
 
 func TestVF_C01(t *testing.T) {
-	rec := vfRec("C01", "C01-negotiate", "pairs of configuration specs (suite subsets and orders incl. unknown ids and nil=default, 0/1/2 client key pairs static or via callbacks, client certificate issuer, verification on/off, server name none/matching/mismatching, 7 ALPN lists per side, session cache on/off, config used directly / via Clone / via GetConfigForClient, six client-auth policies, ClientCAs nil/A/B, 1-3 consecutive connections (optionally with the client's suite list changed from the second one on), echo sizes) checked against a negotiation model; non-trivial = anything but the all-default pair; distinct = hash of the spec")
+	rec := vfRec("C01", "C01-negotiate", "pairs of configuration specs (suite subsets and orders incl. unknown ids and nil=default, 0/1/2 client key pairs static or via callbacks, client certificate issuer, verification on/off, server name none/matching/mismatching, 7 ALPN lists per side, session cache on/off, config used directly / via Clone / via GetConfigForClient, six client-auth policies, ClientCAs nil/A/B, server certificates issued by the trusted root, by an intermediate CA sent along, or by an untrusted root, 1-3 consecutive connections (optionally with the client's suite list changed from the second one on), echo sizes up to 40000 bytes and bulk transfers of 128..300 KB) checked against a negotiation model; non-trivial = anything but the all-default pair; distinct = hash of the spec")
 	check := func(s c01Spec, fail func(sig, msg string)) {
 		sig, msg, classes := c01Run(s)
 		if sig != "" {
